@@ -159,8 +159,18 @@ class FakeNp:
     def isscalar(self, x):
         return not self.array_mode
 
+    def ndim(self, x):
+        # the evaluation point: a vector of coordinates (scalar mode) or a coordinates x points matrix (array mode); scalars have no axes
+        if isinstance(x, (list, tuple, SymArray)):
+            return 2 if self.array_mode else 1
+        return 1 if (self.array_mode and isinstance(x, sp.Basic) and not x.is_number) else 0
+
     def ones(self, shape, *a, **k):
         if self.array_mode:
+            n = shape[0] if isinstance(shape, (list, tuple)) and shape else shape
+            if isinstance(n, int) and n != 7:
+                # (7 = the number of evaluation points of the array mode, see C14Domain._len)
+                raise Raised('ValueError', f'a vector of {n} ones is built where one value per evaluation point (7 points) is needed: the length was taken from the wrong axis of the point array')
             return sp.Integer(1)       # a vector of ones over the evaluation points == the constant 1 at every point
         return SymArray.zeros(shape)   # not used by the repo in scalar mode
 
@@ -578,7 +588,12 @@ def check_one(run, repo, cref, cname, label, index, x, call_method):
                         run.add(Finding('C14', 'D3', f'{modname}::{cname}.__call__', f'{cname} array branch', f'{label}: evaluation on an array of points gives '
                                         f'{fa} but point-wise evaluation gives {f}', fn.file, fn.node.lineno))
                 except Raised as r:
-                    raise AnalysisError(f'{label}.__call__ (array mode) raised {r}')
+                    if 'one value per evaluation point' in r.message:
+                        fn = cref.find('__call__')
+                        run.oblige('D3', (label, '__call__ array branch'), False)
+                        run.add(Finding('C14', 'D3', f'{modname}::{cname}.__call__', f'{cname} array branch', f'{label}: evaluation on an array of points: {r.message}', fn.file, fn.node.lineno))
+                    else:
+                        raise AnalysisError(f'{label}.__call__ (array mode) raised {r}')
                 # D1: partial / partial2
                 for d in range(DIM):
                     try:
